@@ -316,12 +316,14 @@ def _poke(ctx: Ctx, ev: dict) -> None:
             cli = ctx.client
             conn = cli._connection
             w.rec("op_start", actor="poke", i=-1, do="force_disconnect", args={"has_conn": conn is not None})
+            _rec_disc(ctx, cli, True)
             if conn is not None:
                 conn.force_disconnect()
             w.rec("op_end", actor="poke", i=-1, do="force_disconnect", ok=True, value=None)
         elif what == "conn.force_disconnect":
             conn = ctx.conn_objs[ev.get("target", "k0")]
             w.rec("op_start", actor="poke", i=-1, do="conn.force_disconnect", args={})
+            w.rec("disc_call", conn=conn._oid, force=True, state=conn.connection_state.name)
             conn.force_disconnect()
             w.rec("op_end", actor="poke", i=-1, do="conn.force_disconnect", ok=True, value=None)
         elif what == "call":
@@ -368,7 +370,8 @@ def audit(ctx: Ctx, reason: str) -> dict:
         tasks.append({"name": t.get_name() if t.get_name().startswith(("actor-", "simtask-")) else "lib:" + t.get_name()[:60], "coro": getattr(coro, "__qualname__", str(coro)), "actor": t in ctx.actor_tasks})
     tasks.sort(key=lambda d: (d["coro"], d["name"]))
     open_socks = sorted(fd for fd, s in w.sockets.items() if not s.closed)
-    pending_ops = sorted((a.aid, a.current) for a in ctx.actors.values() if a.task is not None and not a.done and a.current is not None)
+    open_transports = sorted(tr._sim_fd for tr in getattr(w, "transports", []) if not tr.is_closing())
+    pending_ops = sorted([a.aid, a.current, a.spec["steps"][a.current]["do"]] for a in ctx.actors.values() if a.task is not None and not a.done and a.current is not None)
     conns = []
     for c in getattr(w, "conns", []):
         try:
@@ -392,6 +395,7 @@ def audit(ctx: Ctx, reason: str) -> dict:
         "timers": timers,
         "tasks": tasks,
         "open_socks": open_socks,
+        "open_transports": open_transports,
         "pending_ops": pending_ops,
         "conns": conns,
         "zcs": zcs,
@@ -558,9 +562,16 @@ async def _s_finish(ctx: Ctx, a: Actor, st: dict) -> Any:
     await cli.finish_connection(login=st.get("login", False))
 
 
+def _rec_disc(ctx: Ctx, cli: Any, force: bool) -> None:
+    conn = cli._connection
+    ctx.world.rec("disc_call", conn=getattr(conn, "_oid", None), force=force, state=conn.connection_state.name if conn is not None else None)
+
+
 @step("disconnect")
 async def _s_disconnect(ctx: Ctx, a: Actor, st: dict) -> Any:
-    await _cli(ctx, st).disconnect(force=st.get("force", False))
+    cli = _cli(ctx, st)
+    _rec_disc(ctx, cli, st.get("force", False))
+    await cli.disconnect(force=st.get("force", False))
 
 
 @step("device_info")
@@ -677,12 +688,16 @@ async def _k_finish(ctx: Ctx, a: Actor, st: dict) -> Any:
 
 @step("conn.disconnect")
 async def _k_disc(ctx: Ctx, a: Actor, st: dict) -> Any:
-    await ctx.conn_objs[st.get("k", "k0")].disconnect()
+    conn = ctx.conn_objs[st.get("k", "k0")]
+    ctx.world.rec("disc_call", conn=conn._oid, force=False, state=conn.connection_state.name)
+    await conn.disconnect()
 
 
 @step("conn.force_disconnect")
 async def _k_fdisc(ctx: Ctx, a: Actor, st: dict) -> Any:
-    ctx.conn_objs[st.get("k", "k0")].force_disconnect()
+    conn = ctx.conn_objs[st.get("k", "k0")]
+    ctx.world.rec("disc_call", conn=conn._oid, force=True, state=conn.connection_state.name)
+    conn.force_disconnect()
 
 
 @step("conn.request")
